@@ -425,6 +425,7 @@ def class_case(item):
 # lattices
 
 POVS = (0.0, 0.25, 0.5, 0.75)
+FSS = (0.01, 1.0, 100.0)
 
 
 def lattice(thorough):
@@ -443,11 +444,13 @@ def lattice(thorough):
             subs.append(list(range(n_all)))                                   # data == reference
         for refs in subs:
             for nxseg in ((16, 32, 64, 256, 1024, 4096) if thorough else (16, 32, 64, 256)):
-                for pov in POVS:
-                    for nseg in (2, 3, 5.5):
-                        for fs in (0.01, 1.0, 100.0):
+                for pi, pov in enumerate(POVS):
+                    for si, nseg in enumerate((2, 3, 5.5)):
+                        for fi, fs in enumerate(FSS):
                             if thorough and nxseg >= 1024 and (n_all > 4 and fs != 1.0):
                                 continue
+                            if not thorough and nxseg > 16 and fi != (pi + si + len(refs)) % 3:
+                                continue        # quick: every fs at nxseg 16; beyond, fs rotates over (overlap, length, references)
                             for method in ("per", "cor"):
                                 out.append((len(out), n_all, refs, nxseg, pov, nseg, fs, method))
     return out
@@ -476,9 +479,11 @@ def sine_lattice(thorough):
     out = []
     for n in (2, 3):
         for nxseg in (16, 32, 64):
-            for pov in POVS:
-                for nseg in (2, 3, 5.5):
-                    for fs in (0.01, 1.0, 100.0):
+            for pi, pov in enumerate(POVS):
+                for si, nseg in enumerate((2, 3, 5.5)):
+                    for fi, fs in enumerate(FSS):
+                        if not thorough and nxseg > 16 and fi != (pi + si + n) % 3:
+                            continue            # quick: every fs at nxseg 16; beyond, fs rotates over (overlap, length, channels)
                         out.append((len(out), n, nxseg, pov, nseg, fs))
     return out
 
@@ -502,6 +507,8 @@ def explore(ctx):
     ctx.bounds = {
         "lattice": {"points": len(L), "channels": sorted({c[1] for c in L}), "reference_lists": sorted({tuple(c[2]) for c in L})[:80],
                     "nxseg": sorted({c[3] for c in L}), "pov": list(POVS), "length_in_segments": [2, 3, 5.5], "fs": [0.01, 1.0, 100.0],
+                    "fs_note": "thorough: full product (nxseg >= 1024 with > 4 channels: fs = 1 only); quick: full product at nxseg 16, beyond "
+                               "that one fs per point, rotating over (overlap, length, number of references) so that every fs meets every value of each",
                     "methods": ["per", "cor"], "library_calls_per_point": 7},
         "delay": {"points": len(D), "nxseg": sorted({c[4] for c in D}), "delays": "1..nxseg/64 (all up to 16, then 1..8,12,16,24,32,48,63,64)",
                   "gains": [0.1, -0.1, 1.0, -1.0, 10.0, -10.0], "pov": sorted({c[7] for c in D}), "segments": [60, 100], "fs": [0.01, 100.0],
